@@ -55,11 +55,18 @@ func (d *Data) NewArbSliceFromStrings(tlStr, trStr, blStr, resStr, sep string) (
 // NewArbSlice returns an image with arbitrary 3D orientation.
 // The 3d points are in real world space definited by resolution, e.g., nanometer space.
 func (d *Data) NewArbSlice(topLeft, topRight, bottomLeft dvid.Vector3d, res float64) (*ArbSlice, error) {
+	if !(res > 0) || math.IsInf(res, 0) {
+		return nil, fmt.Errorf("Bad resolution for arbitrary image, must be a positive number: %f", res)
+	}
 	// Compute the increments in x,y and number of pixels in each direction.
 	dx := topRight.Distance(topLeft)
 	dy := bottomLeft.Distance(topLeft)
 	nxFloat := math.Floor(dx / res)
 	nyFloat := math.Floor(dy / res)
+	// (also false for NaN) the pixel counts must fit the int32 image size
+	if !(nxFloat >= 0 && nxFloat < math.MaxInt32) || !(nyFloat >= 0 && nyFloat < math.MaxInt32) {
+		return nil, fmt.Errorf("Bad arbitrary image size requested: %f x %f pixels", nxFloat+1, nyFloat+1)
+	}
 	incrX := topRight.Subtract(topLeft).DivideScalar(nxFloat)
 	incrY := bottomLeft.Subtract(topLeft).DivideScalar(nyFloat)
 	size := dvid.Point2d{int32(nxFloat) + 1, int32(nyFloat) + 1}
@@ -67,11 +74,11 @@ func (d *Data) NewArbSlice(topLeft, topRight, bottomLeft dvid.Vector3d, res floa
 	arb := &ArbSlice{topLeft, topRight, bottomLeft, res, size, incrX, incrY, bytesPerVoxel, nil}
 
 	// Allocate the image buffer
-	numVoxels := size[0] * size[1]
+	numVoxels := int64(size[0]) * int64(size[1])
 	if numVoxels <= 0 {
 		return nil, fmt.Errorf("Bad arbitrary image size requested: %s", arb)
 	}
-	requestSize := int64(bytesPerVoxel) * int64(numVoxels)
+	requestSize := int64(bytesPerVoxel) * numVoxels
 	if requestSize > server.MaxDataRequest {
 		return nil, fmt.Errorf("Requested payload (%d bytes) exceeds this DVID server's set limit (%d)",
 			requestSize, server.MaxDataRequest)
